@@ -23,11 +23,15 @@ pub const KINDS: [Kind; 10] = [Kind::UniMoveAtomic, Kind::UniMoveFullSync, Kind:
 #[derive(Clone, Debug)]
 pub struct Cfg { pub kind: Kind, pub n: usize, pub m: usize, pub droppy: bool, pub streams: usize, pub entries: Vec<Entry>, pub per_prod: u32, pub stop_after: Vec<Option<u32>>, pub keep_max: u32, pub dropper: bool,
     /// (Multi kinds) a further thread creates and drops listeners while the sends are going on, keeps some of the handles those listeners yielded beyond the listener's own life
-    pub churn: bool }
+    pub churn: bool,
+    /// what is left half-done when the channel is torn down: 0 nothing, 1 a slot that was reserved and neither sent nor cancelled (nothing written into it: it still holds
+    /// the bytes of whatever was moved out of it before), 2 a `send_with_async` whose future was dropped while its setter was suspended (a cancelled task)
+    pub open_at_teardown: u8 }
 impl Cfg {
     pub fn json(&self) -> J {
         J::obj().with("kind", J::s(self.kind.name())).with("N", J::i(self.n as i64)).with("M", J::i(self.m as i64)).with("payload_with_destructor", J::Bool(self.droppy)).with("streams", J::i(self.streams as i64))
             .with("producers", J::Arr(self.entries.iter().map(|e| J::s(e.name())).collect())).with("events_per_producer", J::i(self.per_prod as i64))
+            .with("left_half_done_at_teardown", J::s(["nothing", "a reserved slot (neither sent nor cancelled)", "a send_with_async cancelled while its setter was suspended"][self.open_at_teardown as usize]))
             .with("consumers_stop_after(leftovers_at_teardown)", J::s(format!("{:?}", self.stop_after))).with("handles_kept_at_most", J::i(self.keep_max as i64)).with("clones_dropped_on_another_thread", J::Bool(self.dropper)).with("listeners_created_and_dropped_during_the_sends", J::Bool(self.churn))
     }
 }
@@ -52,7 +56,8 @@ pub fn draw_cfg(rng: &mut Rng, only: Option<&str>, lane: Lane) -> Cfg {
     if kind == Kind::UniMoveCrossbeam && lane == Lane::Ser { es = vec![Entry::Send] }
     let entries: Vec<Entry> = (0..nprod).map(|_| *rng.pick(&es)).collect();
     let stop_after: Vec<Option<u32>> = (0..streams).map(|_| if rng.chance(1, 3) { Some(rng.below(1 + (per_prod * nprod as u32).min(6) as u64) as u32) } else { None }).collect();
-    Cfg { kind, n, m, droppy, streams, entries, per_prod, stop_after, keep_max: rng.below(n as u64 + 1).min(4) as u32, dropper: rng.chance(2, 3), churn }
+    let open_at_teardown = match rng.below(4) { 0 if kind.has_reserve() => 1, 1 if kind.has_async_send() => 2, _ => 0 };
+    Cfg { kind, n, m, droppy, streams, entries, per_prod, stop_after, keep_max: rng.below(n as u64 + 1).min(4) as u32, dropper: rng.chance(2, 3), churn, open_at_teardown }
 }
 
 #[derive(Default)]
@@ -197,6 +202,16 @@ pub fn one_run(cfg: &Cfg, rc: &RunCfg, acc: &mut Acc) -> (Option<J>, u64, bool) 
     }
     // teardown -- with `leftovers` events still buffered
     if complete {
+        // something left half-done (after all the checks above): a reserved slot nobody resolves, a send whose task was cancelled while its setter was suspended
+        match cfg.open_at_teardown {
+            1 => { if ch.reserve().is_some() { acc.count("teardowns_with_a_reserved_slot_neither_sent_nor_cancelled", 1) } }
+            2 => {
+                let mut f = ch.send_with_async(0x7FFF, crate::chan::Gate::new(false));
+                if f.poll_once(&chan::noop_waker()).is_pending() { acc.count("teardowns_after_a_send_with_async_was_cancelled_while_suspended", 1) }
+                drop(f);
+            }
+            _ => {}
+        }
         acc.count("teardowns", 1); if leftovers > 0 { acc.count("teardowns_with_events_still_buffered", 1); acc.count("events_buffered_at_teardown", leftovers as u64) }
         drop(ch);
         for p in tracker().take_problems() { probs.push((classify(&p).into(), format!("at teardown: {p}"))) }
